@@ -100,6 +100,11 @@ type Guard struct {
 	prim func(fn *ssa.Function) eng.EdgeSet
 	memo map[*ssa.Function]int
 	emem map[*ssa.Function]eng.EdgeSet
+	// errCall (optional): a call whose error-like result idx being nil means the primitive guard passed (used to see through
+	// merged error variables); boolCall (optional): a call whose boolean result being `want` means the guard passed.
+	errCall  func(call *ssa.Call) (int, bool)
+	boolCall func(call *ssa.Call) bool
+	want     bool
 }
 
 func (c *Ctx) NewGuard(prim func(fn *ssa.Function) eng.EdgeSet) *Guard {
@@ -108,6 +113,12 @@ func (c *Ctx) NewGuard(prim func(fn *ssa.Function) eng.EdgeSet) *Guard {
 
 // CallGuard: the guard "a call satisfying isGuard returned a nil error-like result errIdx".
 func (c *Ctx) CallGuard(isGuard func(call *ssa.Call) (int, bool)) *Guard {
+	g := c.callGuard0(isGuard)
+	g.errCall = isGuard
+	return g
+}
+
+func (c *Ctx) callGuard0(isGuard func(call *ssa.Call) (int, bool)) *Guard {
 	return c.NewGuard(func(fn *ssa.Function) eng.EdgeSet {
 		out := eng.EdgeSet{}
 		for _, cl := range eng.Calls(fn) {
@@ -124,6 +135,12 @@ func (c *Ctx) CallGuard(isGuard func(call *ssa.Call) (int, bool)) *Guard {
 
 // BoolGuard: the guard "a call satisfying isCall returned want".
 func (c *Ctx) BoolGuard(isCall func(call *ssa.Call) bool, want bool) *Guard {
+	g := c.boolGuard0(isCall, want)
+	g.boolCall, g.want = isCall, want
+	return g
+}
+
+func (c *Ctx) boolGuard0(isCall func(call *ssa.Call) bool, want bool) *Guard {
 	return c.NewGuard(func(fn *ssa.Function) eng.EdgeSet {
 		t, f := eng.BoolEdges(fn, func(v ssa.Value) bool {
 			call, ok := v.(*ssa.Call)
@@ -172,19 +189,47 @@ func (g *Guard) Establishes(h *ssa.Function) bool {
 	}
 	g.memo[h] = 3
 	edges := g.Edges(h)
-	ok := len(edges) > 0
+	ok := true
 	n := 0
 	if ok {
 		for _, r := range eng.Returns(h) {
 			if r.Block().Comment == "recover" {
 				continue
 			}
-			if passReturn(g.c.P, r) == "fail" {
+			if len(r.Results) == 0 {
+				ok = false
 				continue
 			}
-			n++
-			if !eng.Cut(h, r.Block(), edges) {
-				ok = false
+			last := r.Results[len(r.Results)-1]
+			if rv := g.c.P.ReachingStore(last, r); rv != nil {
+				last = rv
+			}
+			switch passReturn(g.c.P, r) {
+			case "fail":
+				_, isConst := last.(*ssa.Const)
+				if isConst || g.c.P.DefinitelyNonNil(last, r) {
+					continue // a failure return
+				}
+				// non-constant result: may be a pass
+				if last.Type().String() == "bool" && g.boolCall != nil {
+					if g.boolOnlyBehind(last, 0) {
+						n++
+					} else if eng.Cut(h, r.Block(), edges) {
+						n++
+					} else {
+						ok = false
+					}
+					continue
+				}
+				n++
+				if !eng.Cut(h, r.Block(), edges) && !g.isPassingErr(last, h) {
+					ok = false
+				}
+			default:
+				n++
+				if !eng.Cut(h, r.Block(), edges) {
+					ok = false
+				}
 			}
 		}
 	}
@@ -261,8 +306,132 @@ func (g *Guard) Edges(fn *ssa.Function) eng.EdgeSet {
 			}
 		}
 	}
+	// merged error variables: `if x != nil` where x is a phi / multi-store variable all of whose sources are error results
+	// of guard calls or of establishing helpers
+	for _, b := range fn.Blocks {
+		iff, ok := b.Instrs[len(b.Instrs)-1].(*ssa.If)
+		if !ok {
+			continue
+		}
+		x, trueNonNil, ok := eng.NilCompare(iff.Cond)
+		if !ok {
+			continue
+		}
+		srcs := g.errSources(x, fn)
+		if len(srcs) < 2 {
+			continue
+		}
+		all := true
+		for _, sv := range srcs {
+			if !g.isPassingErr(sv, fn) {
+				all = false
+			}
+		}
+		if all {
+			e := eng.Edge{From: b, To: b.Succs[1]}
+			if !trueNonNil {
+				e = eng.Edge{From: b, To: b.Succs[0]}
+			}
+			out[e] = true
+		}
+	}
 	g.emem[fn] = out
 	return out
+}
+
+// errSources expands a tested error value into the values it may hold (phi operands, stores of a local variable).
+func (g *Guard) errSources(x ssa.Value, fn *ssa.Function) []ssa.Value {
+	var out []ssa.Value
+	seen := map[ssa.Value]bool{}
+	var walk func(v ssa.Value, d int)
+	walk = func(v ssa.Value, d int) {
+		if seen[v] || d > 6 {
+			return
+		}
+		seen[v] = true
+		switch y := v.(type) {
+		case *ssa.Phi:
+			for _, e := range y.Edges {
+				walk(e, d+1)
+			}
+		case *ssa.UnOp:
+			if y.Op == token.MUL {
+				if cell := eng.CellRoot(y.X); cell != nil {
+					for _, st := range g.c.P.CellStores(cell) {
+						if st.Parent() == fn {
+							walk(st.Val, d+1)
+						} else {
+							out = append(out, st.Val)
+						}
+					}
+					return
+				}
+			}
+			out = append(out, v)
+		default:
+			out = append(out, v)
+		}
+	}
+	walk(x, 0)
+	return out
+}
+
+// isPassingErr: v is the error-like result of a primitive guard call or of a helper that establishes the guard (nil ⇒ passed),
+// or the nil constant produced on a path that is itself behind the guard.
+func (g *Guard) isPassingErr(v ssa.Value, fn *ssa.Function) bool {
+	call, idx, ok := eng.AsResult(v)
+	if !ok {
+		return false
+	}
+	if g.errCall != nil {
+		if ei, ok := g.errCall(call); ok && ei == idx {
+			return true
+		}
+	}
+	h := singleRepoCallee(g.c, call)
+	if h == nil || h == fn {
+		return false
+	}
+	ei := errLikeResultIndex(h.Signature)
+	return ei >= 0 && ei == idx && g.Establishes(h)
+}
+
+// boolOnlyBehind: the boolean v can equal g.want only when the guard call returned g.want: the call itself, constants of
+// the other polarity, and phis of those.
+func (g *Guard) boolOnlyBehind(v ssa.Value, d int) bool {
+	if d > 6 {
+		return false
+	}
+	switch y := v.(type) {
+	case *ssa.Const:
+		if y.Value == nil {
+			return false
+		}
+		isTrue := y.Value.ExactString() == "true"
+		return isTrue != g.want
+	case *ssa.Call:
+		if g.boolCall(y) {
+			return true
+		}
+		if h := singleRepoCallee(g.c, y); h != nil {
+			return g.Establishes(h)
+		}
+		return false
+	case *ssa.Phi:
+		for _, e := range y.Edges {
+			if !g.boolOnlyBehind(e, d+1) {
+				return false
+			}
+		}
+		return true
+	case *ssa.UnOp:
+		if y.Op == token.NOT {
+			ng := *g
+			ng.want = !g.want
+			return ng.boolOnlyBehind(y.X, d+1)
+		}
+	}
+	return false
 }
 
 // CutDeep: every path from the region root's entry to instruction ins crosses a guard edge — in ins's own function, or,
